@@ -65,11 +65,14 @@ class NOOP(AgentExecutingComponent) :
 
         self.advance_tasks(tasks, rps.AGENT_EXECUTING, publish=True, push=False)
 
+        started = list()
+
         for task in tasks:
 
             try:
                 self._prof.prof('task_start', uid=task['uid'])
                 self._handle_task(task)
+                started.append(task)
 
             except Exception as e:
                 self._log.exception("error running Task")
@@ -82,8 +85,9 @@ class NOOP(AgentExecutingComponent) :
 
                 self.advance_tasks(task, rps.FAILED, publish=True, push=False)
 
+        # failed tasks are final: only collect those which did start
         with self._tasks_lock:
-            self._tasks.extend(tasks)
+            self._tasks.extend(started)
 
 
     # --------------------------------------------------------------------------
